@@ -21,10 +21,21 @@ PROP_GROUPS = {
     "C01": ["store"], "C02": ["conc"], "C03": ["conc"], "C04": ["dur"], "C05": ["store"], "C06": ["store", "conc", "http"],
     "C07": ["store", "dur"], "C08": ["store"], "C09": ["store", "conc"], "C10": ["store", "http", "conc", "dur"],
     "C11": ["conc", "store"], "C12": ["codec", "store", "http"], "C13": ["http"], "C20": ["store", "http"],
+    "C14": ["proc"], "C15": ["proc"], "C16": ["proc"], "C17": ["proc"], "C18": ["proc"], "C19": ["proc"],
 }
+PROP_GROUPS["C06"] = PROP_GROUPS["C06"] + ["proc"]
 
 ASSUME = {
     "codec": ["numbers are canonical decimal strings in the model (TLC integers are 32 bit); JSON values of metas are sampled by class in the store/http groups, not enumerated"],
+    "proc": ["TLC's verdict on XsHandlers / XsCommands / XsGenerators holds for the constants of the MC_proc_*.cfg files "
+             "(1-2 names x 2 contexts, <= 4 client actions, <= 1 restart); the code is modelled as it is, its known deviations "
+             "are named flags and the invariants they break are checked on the repaired variants",
+             "the stream is the trace: the observer (TraceProc) judges the dumped stream only, from id order and stamps; which "
+             "thread ran when is never consulted",
+             "a frame counts as absent only after the runner found something owed and waited its long timeout (20-30 s); "
+             "a late frame is a missed detection, never an alarm",
+             "scripts come from a fixed catalogue of deterministic nu scripts (tools/groups/proc_catalogue.py); "
+             "restarts are SIGKILL or exit of the serving process, mostly at quiescent points"],
     "http": ["requests are raw HTTP/1.1 over the unix socket, one connection per request (Connection: close)",
              "topics sent in the request line are URL-safe ASCII; NUL topics reach the server only through POST /import",
              "a rejected append may leave an orphan CAS object; 'changes nothing' means frames, indexes and registry"],
